@@ -31,6 +31,8 @@ Proof.
   destruct b; cbn [tparen paren]; [|reflexivity].
   rewrite cflatten_cons, cflatten_app, cflatten_one. reflexivity.
 Qed.
+Lemma cflatten_topnd sl t ts : cflatten (topnd sl t ts) = opnd sl t (cflatten ts).
+Proof. unfold topnd, opnd. apply cflatten_tparen. Qed.
 Lemma cflatten_tjoin sep l : cflatten (tjoin sep l) = join sep (map cflatten l).
 Proof.
   induction l as [|x r IH]; [reflexivity|]. destruct r as [|y r'].
@@ -57,9 +59,9 @@ Definition Fl (l : tlist) := forall c, rmap (map cflatten) (toks_list c l) = ren
 Definition Fw (l : wlist) := forall c, rmap (map cflatten) (toks_whens c l) = render_whens c l.
 Definition Fo (o : oterm) := match o with ONone => True | OSome t => Ft t end.
 
-Ltac fl := rewrite ?cflatten_alias, ?cflatten_app, ?cflatten_cons, ?cflatten_tparen, ?cflatten_tjoin, ?cflatten_one,
-             ?cflatten_nil; cbn [ctok_text]; rewrite ?cflatten_alias, ?cflatten_app, ?cflatten_cons, ?cflatten_tparen,
-             ?cflatten_tjoin, ?cflatten_one, ?cflatten_nil; cbn [ctok_text]; rewrite ?app_assoc_s, ?app_nil_r_s.
+Ltac fl1 := rewrite ?cflatten_alias, ?cflatten_app, ?cflatten_cons, ?cflatten_tparen, ?cflatten_topnd, ?cflatten_tjoin,
+              ?cflatten_one, ?cflatten_nil; cbn [ctok_text].
+Ltac fl := unfold tstarts_minus; fl1; fl1; fl1; rewrite ?app_assoc_s, ?app_nil_r_s.
 
 Lemma toks_flatten_all : (forall t, Ft t) /\ (forall l, Fl l) /\ (forall l, Fw l) /\ (forall o, Fo o).
 Proof.
@@ -73,15 +75,15 @@ Proof.
   - (* TValRaw *) intros txt alias c. cbn [toks render rmap]. rewrite cflatten_alias, cflatten_one. reflexivity.
   - (* TLit *) intros raw alias c. cbn [toks]. destruct (render c (TLit raw alias)); cbn; [rewrite app_nil_r_s|]; reflexivity.
   - (* TParam *) intros txt c. cbn [toks]. destruct (render c (TParam txt)); cbn; [rewrite app_nil_r_s|]; reflexivity.
-  - (* TNeg *) intros t IH c. cbn [toks render]. rewrite <- IH. destruct (toks c t); cbn [bind rmap]; [|reflexivity].
-    rewrite cflatten_cons. reflexivity.
+  - (* TNeg *) intros t IH c. cbn [toks render]. rewrite <- IH. destruct (toks _ t); cbn [bind rmap]; [|reflexivity].
+    f_equal. fl. reflexivity.
   - (* TArith *) intros op l IHl r IHr alias c. cbn [toks render]. rewrite <- IHl, <- IHr.
-    destruct (toks (set_wa c false) l); cbn [bind rmap]; [|reflexivity].
-    destruct (toks (set_wa c false) r); cbn [bind rmap]; [|reflexivity].
+    destruct (toks _ l); cbn [bind rmap]; [|reflexivity].
+    destruct (toks _ r); cbn [bind rmap]; [|reflexivity].
     f_equal. destruct (wa c); fl; reflexivity.
   - (* TBasic *) intros cm l IHl r IHr alias c. cbn [toks render]. rewrite <- IHl, <- IHr.
-    destruct (toks (set_wa c false) l); cbn [bind rmap]; [|reflexivity].
-    destruct (toks (set_wa c false) r); cbn [bind rmap]; [|reflexivity].
+    destruct (toks _ l); cbn [bind rmap]; [|reflexivity].
+    destruct (toks _ r); cbn [bind rmap]; [|reflexivity].
     f_equal. destruct (wa c); fl; reflexivity.
   - (* TCplx *) intros bo l IHl r IHr alias c. cbn [toks render]. rewrite <- IHl, <- IHr.
     destruct (toks _ l); cbn [bind rmap]; [|reflexivity].
@@ -92,9 +94,9 @@ Proof.
     destruct (toks _ cont); cbn [bind rmap]; [|reflexivity].
     f_equal. fl. reflexivity.
   - (* TBetween *) intros t IHt lo IHlo hi IHhi alias c. cbn [toks render]. rewrite <- IHt, <- IHlo, <- IHhi.
-    destruct (toks c t); cbn [bind rmap]; [|reflexivity].
-    destruct (toks c lo); cbn [bind rmap]; [|reflexivity].
-    destruct (toks c hi); cbn [bind rmap]; [|reflexivity].
+    destruct (toks _ t); cbn [bind rmap]; [|reflexivity].
+    destruct (toks _ lo); cbn [bind rmap]; [|reflexivity].
+    destruct (toks _ hi); cbn [bind rmap]; [|reflexivity].
     f_equal. fl. reflexivity.
   - (* TBitAnd *) intros t IHt v alias c. cbn [toks render]. rewrite <- IHt.
     destruct (toks c t); cbn [bind rmap]; [|reflexivity]. f_equal. fl. reflexivity.
